@@ -118,9 +118,9 @@ class GAF:
 
     def parse_gaf_line(self, line):
         if not self.gz_flag:
-            fields = line.rstrip().split("\t")
+            fields = line.rstrip("\r\n").split("\t")
         else:
-            fields = line.decode("utf-8").rstrip().split("\t")
+            fields = line.decode("utf-8").rstrip("\r\n").split("\t")
 
         # If the query name has spaces (e.g., GraphAligner), we get rid of the segment after the space
         query_name = fields[0].split(" ")[0]
@@ -159,19 +159,22 @@ class GAF:
 
         # Check if there are additional tags
         tags = {}
-        for k in fields:
-            if re.match("[A-Za-z][A-Za-z0-9]:[AifZHB]:[A-Za-z0-9]+", k):
-                pattern = re.findall(r"([A-Za-z][A-Za-z0-9]:[AifZHB]:)[A-Za-z0-9]+", k)[0]
+        for k in fields[12:]:
+            if re.match("[A-Za-z][A-Za-z0-9]:[AifZHB]:", k):
+                # TAG:TYPE: is the key, everything after it is the value (kept verbatim)
+                pattern = k[:5]
+                val = k[5:]
+                if pattern == "ds:Z:":
+                    # the ds tag (difference string) is not kept
+                    continue
                 if pattern == "cg:Z:":
-                    val = re.findall(r"[A-Za-z][A-Za-z0-9]:[AifZHB]:([A-Za-z0-9=]+)", k)[0]
                     cigar = val
                     tags[pattern] = val
                 else:
-                    val = re.findall(r"[A-Za-z][A-Za-z0-9]:[AifZHB]:([A-Za-z0-9.]+)", k)[0]
                     if pattern not in tags:
                         tags[pattern] = val
 
-                    if pattern == "tp:A" and (val != "P" or val != "p"):
+                    if pattern == "tp:A:" and val != "P" and val != "p":
                         is_primary = False
 
         return Alignment(
